@@ -187,7 +187,11 @@ pub fn parse(line: &str) -> Option<Def> {
             }
             ("t", 2) => {
                 if let (Some(m), Ok(n)) = (d.methods.last_mut(), parts[1].parse::<u32>()) {
-                    m.attrs.push(Attr::Other(n % ATTRS.len() as u32));
+                    // rustc refuses some attributes when repeated (deprecated, must_use): once each
+                    let n = n % ATTRS.len() as u32;
+                    if !m.attrs.iter().any(|a| matches!(a, Attr::Other(k) if *k == n)) {
+                        m.attrs.push(Attr::Other(n));
+                    }
                 }
             }
             _ => {}
@@ -670,11 +674,9 @@ fn gen_special(rng: &mut Rng) -> Def {
 }
 
 pub fn gen(rng: &mut Rng) -> Def {
-    if rng.chance(1, 7) {
-        gen_special(rng)
-    } else {
-        gen_accepted(rng)
-    }
+    let d = if rng.chance(1, 7) { gen_special(rng) } else { gen_accepted(rng) };
+    // through the script syntax, so that what is generated is exactly what a script denotes
+    parse(&show(&d)).unwrap_or(d)
 }
 
 /// bounded-exhaustive family for the thorough tier: every pair of method names from a small
